@@ -24,7 +24,7 @@ def run(tier, seed):
          "repeating groups with several members are instantiated once (the flattened struct cannot keep interleaving; DESIGN.md section 6)"],
         "instances from Spec.Inst (3 prefix styles per type) deserialised into the compiled emitted types and serialised again; the serialised text must parse with a namespace-aware parser "
         "and have the infoset of the instance (element names and namespaces, unqualified attributes, order, omission of absent members, one element per item, lexical forms); distinct = distinct instance documents",
-        extra_props=[("ZeepVerif.Props.C03Ya", "ZeepVerif/Audit/C03Ya.lean")], ya=True)
+        extra_props=[("ZeepVerif.Props.C03Ya", "ZeepVerif/Audit/C03Ya.lean"), ("ZeepVerif.Props.C03End", "ZeepVerif/Audit/C03End.lean")], ya=True)
 
 
 def replay(payload):
